@@ -15,7 +15,7 @@ STRUCT = [b"\r", b"\n", b" ", b"\t", b":", b";", b",", b"=", b"+", b"-", b"0", b
 UNICODE_LOOKALIKES = ["\u00a0", "\u0085", "\u2003", "\u2028", "\u3000", "\u1680", "\u0663", "\uff11", "\u00b2", "\u212a", "\u017f", "\u0130", "\u0131",
                       "\u00df", "\ufb01", "\u1e9e", "\u00c5", "\u212b"]
 
-GOOD_METHODS = [b"GET", b"POST", b"PUT", b"DELETE", b"OPTIONS", b"HEAD", b"M", b"PATCH", b"get", b"M-SEARCH",
+GOOD_METHODS = [b"GET", b"POST", b"PUT", b"DELETE", b"OPTIONS", b"HEAD", b"M", b"PATCH", b"get", b"M-SEARCH", b"CONNECT", b"CONNECT", b"TRACE",
                 "GÉT".encode(), b"a!b", "R\u00c9SUM\u20ac".encode(), "\U0001F600GET".encode(), "G\U0001F600".encode()]
 BAD_METHODS = [b"", b"G\xffT", b"G\rT", b"G\nT", b"\xc3", b"G\tT"]
 
@@ -23,7 +23,8 @@ GOOD_TARGETS = [b"/", b"/a", b"/a/b/c", b"/a%20b", b"/a%20b?q=1&r=%41", b"/x?y#z
                 b"http://example.com/", b"http://example.com:8080/p?q", b"http://u:p@h.example/x", b"example.com:443",
                 b"http://1.2.3.4/", b"http://[::1]/", b"http://[::ffff:1.2.3.4]:80/p", b"http://[v7.a:b]/x",
                 b"https://EXAMPLE.com/A%2fB", b"/?", b"/#", b"?q", b"#f", b"//h/p", b"/a+b?c+d", b"/~u/-._",
-                b"urn:isbn:0451450523", b"/a:b", b"http://h:/x", b"/%41%5A%7e"]
+                b"urn:isbn:0451450523", b"/a:b", b"http://h:/x", b"/%41%5A%7e",
+                b"www.example.com:443", b"h:1", b"tel:5550100", b"localhost:8080", b"a.b:65535", b"mailto:a@b", b"?page=2", b"http://www.example.com/a/b/../c/./d", b"/a/./b/../c"]
 # targets whose text -> Uri -> text -> Uri is not stable in the dependency (known finding D8)
 D8_TARGETS = [b"a%3Ab", b"http://[::FFFF:1.2.3.4]/", b"http://[vA.B]/x"]
 BAD_TARGETS = [b"/%zz", b"/%4", "/é".encode(), b"/\xff", b"http://[::1/", b"//h:99999/", b"http://h:+80/", b"/a\tb",
@@ -320,7 +321,12 @@ BAD_SIZES = [b"+3", b"g", b"", b" 3", b"3 ", b"-1", b"0x3", b"3,3", b"ffffffffff
              b"8000000000000000", b"7fffffff", b"fffffffffffffff0", b"3\rjunk", b"\xff", b"3_", b"3\t"]
 TRAILER_FIELDS = [(b"X-T", b"1"), (b"Host", b"h"), (b"T", b"a b"), (b"Content-Length", b"9"), (b"Trailer", b"q"),
                   (b"Transfer-Encoding", b"chunked"), (b"content-length", b"0"), (b"X-Foo", b"dup"), (b"", b"e"),
-                  (b"TRANSFER-ENCODING", b"gzip"), (b"Content-MD5", b"abc=="), (b"X-T", b"2")]
+                  (b"TRANSFER-ENCODING", b"gzip"), (b"Content-MD5", b"abc=="), (b"X-T", b"2"),
+                  # fields a "hardening" might want to keep out of a trailer (tenth round): they are trailer fields like any other
+                  (b"Content-Encoding", b"gzip"), (b"content-encoding", b"identity"), (b"Content-Type", b"text/plain"), (b"Content-Range", b"bytes 0-1/2"),
+                  (b"Set-Cookie", b"a=b"), (b"WWW-Authenticate", b"Basic"), (b"Proxy-Authenticate", b"Basic"), (b"Authorization", b"x"), (b"Cache-Control", b"no-cache"),
+                  (b"Expect", b"100-continue"), (b"Max-Forwards", b"1"), (b"Pragma", b"no-cache"), (b"Range", b"bytes=0-1"), (b"TE", b"trailers"), (b"Age", b"1"),
+                  (b"Expires", b"0"), (b"Date", b"x"), (b"Location", b"/"), (b"Retry-After", b"1"), (b"Vary", b"*"), (b"Warning", b"199 - x"), (b"ETag", b"\"x\""), (b"Digest", b"x")]
 
 
 def gen_chunked(rng, payload=None, good_p=0.85):
